@@ -18,6 +18,7 @@ from .client_generators.constants import (
 )
 from .client_generators.scalars import ScalarData
 from .exceptions import InvalidConfiguration
+from .graphql_schema_generators.constants import RESERVED_VARIABLE_NAMES
 
 
 class CommentsStrategy(str, enum.Enum):
@@ -201,6 +202,12 @@ class GraphQLSchemaSettings(BaseSettings):
         assert_string_is_valid_schema_target_filename(self.target_file_path)
         assert_string_is_valid_python_identifier(self.schema_variable_name)
         assert_string_is_valid_python_identifier(self.type_map_variable_name)
+        assert_name_is_not_reserved_in_schema_module(self.schema_variable_name)
+        assert_name_is_not_reserved_in_schema_module(self.type_map_variable_name)
+        if self.schema_variable_name == self.type_map_variable_name:
+            raise InvalidConfiguration(
+                "schema_variable_name and type_map_variable_name must be different."
+            )
 
     @property
     def used_settings_message(self):
@@ -271,6 +278,14 @@ def assert_string_is_valid_python_identifier(name: str):
     if not name.isidentifier() or iskeyword(name):
         raise InvalidConfiguration(
             f"Provided name {name} cannot be used as python identifier."
+        )
+
+
+def assert_name_is_not_reserved_in_schema_module(name: str):
+    if name in RESERVED_VARIABLE_NAMES:
+        raise InvalidConfiguration(
+            f"Provided name {name} is imported by the generated schema module "
+            "and cannot be used as a variable name in it."
         )
 
 
